@@ -1,12 +1,14 @@
 """Core of the checks: building, running implementation and model on the same cases,
 comparing, proof audit, evidence, reporting."""
 import fcntl
+import itertools
 import json
 import math
 import os
 import re
 import subprocess
 import sys
+import threading
 import time
 from concurrent.futures import ThreadPoolExecutor
 from fractions import Fraction
@@ -183,9 +185,13 @@ SHARD_TIMEOUT = 4 * 3600
 CASE_TIMEOUT = 20
 
 
+_ONE_SEQ = itertools.count()
+
+
 def _run_one(binary, line, idx):
     """a single case in its own process: used to isolate a case that hangs or kills the runner"""
-    path = os.path.join(SCRATCH, "cases", "one.%d.%d.txt" % (os.getpid(), idx))
+    # several shards can be taken apart at the same time: the name must be unique across threads
+    path = os.path.join(SCRATCH, "cases", "one.%d.%d.%d.txt" % (os.getpid(), threading.get_ident(), next(_ONE_SEQ)))
     with open(path, "w") as f:
         f.write(line + "\n")
     try:
@@ -197,7 +203,10 @@ def _run_one(binary, line, idx):
     except subprocess.TimeoutExpired:
         return "HANG no answer within %d s" % CASE_TIMEOUT
     finally:
-        os.unlink(path)
+        try:
+            os.unlink(path)
+        except OSError:
+            pass
 
 
 def _run_shard(args):
